@@ -21,13 +21,14 @@ import copy
 import difflib
 
 from harness import core, values as V, diffcommon as D
+from harness.props.c02 import near_miss
 
 THEOREM_FILE = "Properties/C03.v"
 COQCHK = ["Properties.C03"]
 RULE = ("pairs of nested values over dict (str/int/float/None/bool keys), list, tuple, set, frozenset, str (incl. multi-line, quotes, '__' prefixed), "
         "bytes (incl. multi-line, non-ASCII outside sets), int, float (half-integers), bool, None: (a) exhaustive small universe "
         "(all ordered pairs in thorough, a seeded slice in quick), (b) random independent pairs, (c) edit-script neighbours (1-3 edits of every kind at "
-        "every depth), (d) the same with ==-aliased atoms (1/True/1.0); each with ignore_private_variables in {True, False}. "
+        "every depth) and near-miss edits (float +-0.5, int +-1, int<->float, bool<->int, str case/blank/newline, str<->bytes, list<->tuple, set<->frozenset), (d) the same with ==-aliased atoms (1/True/1.0); each with ignore_private_variables in {True, False}. "
         "Non-trivial = the expected result is non-empty; distinct by (t1, t2, ip).")
 TRUSTED = ["difflib.unified_diff is an oracle (Section variable udiff in Coq; the same difflib call in the Python specification)",
            "DeepHash of set members enters the model as an injective function (theorem hypothesis); the correspondence with the model skips pairs whose "
@@ -36,7 +37,8 @@ TRUSTED = ["difflib.unified_diff is an oracle (Section variable udiff in Coq; th
            "values are tree-shaped (fresh containers), floats are half-integers, no bytes dict keys (finding F5, outside the quantifier), "
            "no bytes that are not valid UTF-8 inside sets (DeepDiff raises UnicodeDecodeError asking for ignore_encoding_errors: documented)"]
 ASSUMPTIONS = ["dict/set inputs satisfy Python's representation invariant (keys / members pairwise !=)",
-               "hatom injective (C03_positional_is_spec); the real DeepHash is not: findings K1, K2"]
+               "the item hash is injective on set members (C03_positional_is_spec); for the DeepHash scalar model: set members tag_safe, any injective hasher "
+               "(C03_positional_is_spec_deephash); the real DeepHash with its ==-keyed memo is not injective: findings K1, K2"]
 
 STRINGS = V.STR_POOL + ["a\nb", "a\nc\n", "a\nb\n", "x\ny\nz", "a\n", "__p", "__", "_a", "it's", 'q"q', "b'\"q", "int:1", "NONE"]
 BYTES = [b"a\nb", b"a\nc", b"a\nb\n", b"a\n\xff", b"\xff", b"a", b"it's"]
@@ -211,9 +213,18 @@ def random_pairs(ctx, n):
         alias = rng.random() < 0.3
         t1 = remap_bytes(rng, V.gen_value(rng, depth=3, width=4, alias=alias, strings=STRINGS))
         r = rng.random()
-        if r < 0.25:
+        if r < 0.2:
             t2 = remap_bytes(rng, V.gen_value(rng, depth=3, width=4, alias=alias, strings=STRINGS))
             ctx.count("gen:independent")
+        elif r < 0.45:
+            # smallest possible changes (what a tolerant or type-blind comparer would miss)
+            t2 = t1
+            for _ in range(rng.randint(1, 2)):
+                t2n, k = near_miss(rng, t2)
+                if k is not None:
+                    t2 = t2n
+                    ctx.count("edit:" + k)
+            ctx.count("gen:near_miss")
         else:
             fine = rng.random() < 0.6   # small edits only: keeps the pair aligned so that deep entries are exercised
             vals, kinds = V.edit_script(rng, t1, rng.randint(1, 3), alias=alias, strings=STRINGS,
